@@ -20,9 +20,13 @@
 (***************************************************************************)
 EXTENDS Engine, Json
 
+CONSTANT ClientMode   \* TRUE: a gnet.Client life (no acceptors, every connection enrolled through Dial / Enroll,
+                      \* Client.Stop has no step hooks: its steps are inferred)
+
 Trace == ndJsonDeserialize("trace.ndjson")
 VARIABLES l, hmap, hidx, stopReq
 tvars == <<vars, l, hmap, hidx, stopReq>>
+\* (in client mode hidx maps the descriptor number of a duplicated socket to its registration id)
 Ev == Trace[l]
 More == l <= Len(Trace)
 Is(e) == More /\ Ev.ev = e
@@ -38,8 +42,28 @@ TInit == Init /\ l = 1 /\ hmap = <<>> /\ hidx = <<>> /\ stopReq = FALSE /\ TLCSe
 TAccept == /\ Is("Accept") /\ ~ReusePort
            /\ Accept(NextConn, Ev.idx + 1)
            /\ hmap' = Put(hmap, Ev.h, NextConn) /\ UNCHANGED <<hidx, stopReq>> /\ Adv
+\* ---- client engines: Dial / Enroll duplicate the socket, pick a loop and queue the registration
+NextReg == IF \E r \in Regs : regres[r] = "none" THEN CHOOSE r \in Regs : regres[r] = "none" /\ \A d \in Regs : d < r => regres[d] # "none" ELSE 0
+TDup == /\ Is("Dup") /\ ClientMode /\ NextReg # 0
+        /\ \E i \in Loops : (Ev.k = -1 \/ i = Ev.k + 1) /\ RegCall(NextReg, i)
+        /\ hidx' = Put(hidx, Ev.idx, NextReg) /\ UNCHANGED <<hmap, stopReq>> /\ Adv
+TRegisteredC ==
+    /\ Is("Registered") /\ ClientMode /\ Ev.k \in DOMAIN hidx
+    /\ LET r == hidx[Ev.k] i == Ev.idx + 1 IN
+         /\ cst[r] = "queued" /\ loopOf[r] = i /\ lst[i] = "polling"
+         /\ q[i] # <<>> /\ Head(q[i]) = <<"regcb", r>>
+         /\ hmap' = Put(hmap, Ev.h, r)
+    /\ UNCHANGED <<vars, hidx, stopReq>> /\ Adv
+TOpenEndC ==
+    /\ Is("OpenEnd") /\ ClientMode /\ Ev.h \in DOMAIN hmap
+    /\ RunReg(loopOf[hmap[Ev.h]], hmap[Ev.h], Ev.action)
+    /\ KeepT /\ Adv
+SRegEnqueue == ClientMode /\ (\E r \in Regs : RegEnqueue(r)) /\ Stay /\ KeepT
+\* Client.Stop: shutdown(nil), OnShutdown, the exit signals, Wait, closeEventLoops, the flag -- only OnShutdown is logged
+SStopSteps == ClientMode /\ (S1 \/ S4 \/ S5 \/ S6) /\ Stay /\ KeepT
+
 TRegistered ==
-    /\ Is("Registered")
+    /\ Is("Registered") /\ ~ClientMode
     /\ IF ReusePort
        THEN hidx' = Put(hidx, Ev.h, Ev.idx) /\ hmap' = hmap
        ELSE /\ Ev.h \in DOMAIN hmap
@@ -49,7 +73,7 @@ TRegistered ==
             /\ UNCHANGED <<hidx, hmap>>
     /\ UNCHANGED <<vars, stopReq>> /\ Adv
 TOpenEnd ==
-    /\ Is("OpenEnd")
+    /\ Is("OpenEnd") /\ ~ClientMode
     /\ IF ReusePort
        THEN /\ Ev.h \in DOMAIN hidx
             /\ AcceptOwn(hidx[Ev.h] + 1, NextConn, Ev.action)
@@ -94,7 +118,7 @@ TRunRet == /\ Is("RunRet")
 
 \* ---- what the log does not show
 SConnect ==
-    /\ More
+    /\ More /\ ~ClientMode
     /\ \/ ~ReusePort /\ Ev.ev = "Accept" /\ backlog[Main] = 0 /\ Connect(Main)
        \/ ReusePort /\ Ev.ev = "OpenEnd" /\ Ev.h \in DOMAIN hidx /\ backlog[hidx[Ev.h] + 1] = 0 /\ Connect(hidx[Ev.h] + 1)
     /\ Stay /\ KeepT
@@ -106,6 +130,7 @@ SStopCall == stopReq /\ StopCall /\ Stay /\ KeepT
 TNext == \/ TAccept \/ TRegistered \/ TOpenEnd \/ TTrafficShutdown \/ TClose \/ TPollingReturned \/ TLoopClosed
          \/ TStopReq \/ TStop \/ TOnShutdown \/ TTriggered \/ TTickShutdown \/ TRunRet
          \/ SConnect \/ SEnqueue \/ SS3 \/ STickerExit \/ SStopCall
+         \/ TDup \/ TRegisteredC \/ TOpenEndC \/ SRegEnqueue \/ SStopSteps
 
 Accepted == IF TLCGet(1) = Len(Trace) + 1 THEN TRUE
             ELSE /\ PrintT(<<"TRACE_REJECTED_AT", TLCGet(1), Trace[TLCGet(1)]>>)
